@@ -18,10 +18,12 @@ import (
 	"sync/atomic"
 
 	"rivaas.dev/app"
+	rverrors "rivaas.dev/errors"
 	"rivaas.dev/logging"
 	"rivaas.dev/router"
 	"rivaas.dev/router/route"
 	"rivaas.dev/router/version"
+	"rivaas.dev/tracing"
 	"verif/harness/hx"
 )
 
@@ -188,6 +190,8 @@ type ctxKey struct{}
 
 // ReqState is what the instrumented handlers of one request share.
 type ReqState struct {
+	// Wrote: an instrumented handler has written to the response of this request
+	Wrote  bool
 	Log    []string
 	Cancel context.CancelFunc
 	Beh    map[int][]Act
@@ -222,7 +226,7 @@ type customPanic struct{ N int }
 func PanicValue(v int) any {
 	switch v {
 	case 0:
-		return errors.New("boom")
+		return ErrBoom
 	case 1:
 		return "boom"
 	case 2:
@@ -240,8 +244,38 @@ func PanicValue(v int) any {
 	}
 }
 
-// NPanicValues is the number of panic values of the quantifier (0..NPanicValues-1).
+// ErrBoom is panic value 0 (a package-level error, so that an application's error mapping can know it).
+var ErrBoom = errors.New("boom")
+
+// NPanicValues is the number of panic values of the quantifier (0..NPanicValues-1) that can be
+// raised anywhere; value WriterPanic is raised by the response writer from inside c.JSON.
 const NPanicValues = 8
+
+// WriterPanic: `c.JSON(0, doc)` — the document is encoded, then the writer refuses the status code
+// ("invalid WriteHeader code 0"): a panic raised in the middle of a render call. Once the response
+// has been started the status is not sent again, so there the same string is raised directly.
+const WriterPanic = 8
+
+const writerPanicText = "invalid WriteHeader code 0"
+
+// StatusResolver is an application's mapping of domain errors to statuses (app.WithErrorFormatter):
+// it knows most of the error values handlers panic with. What a handler panicked with is a crash,
+// not a domain error — the mapping must not decide the status of the 500.
+func StatusResolver(err error) int {
+	switch {
+	case errors.Is(err, ErrBoom):
+		return http.StatusNotFound
+	case errors.Is(err, context.DeadlineExceeded):
+		return http.StatusGatewayTimeout
+	case errors.Is(err, context.Canceled):
+		return 499
+	case errors.Is(err, io.EOF):
+		return http.StatusBadRequest
+	case errors.Is(err, http.ErrAbortHandler):
+		return http.StatusUnprocessableEntity
+	}
+	return http.StatusInternalServerError
+}
 
 func doPanic(v int) {
 	if v == 2 {
@@ -257,6 +291,9 @@ func PanicIndex(p any) int {
 	case nil:
 		return -1
 	case string:
+		if strings.HasPrefix(x, "invalid WriteHeader code") {
+			return WriterPanic
+		}
 		return 1
 	case customPanic:
 		return 3
@@ -293,10 +330,17 @@ func runActs(c *router.Context, st *ReqState, hid int, acts []Act) {
 		case "C":
 			st.Cancel()
 		case "W":
+			st.Wrote = true
 			_ = c.JSON(StatusOf(hid), map[string]int{"h": hid})
 		case "R":
 			return
 		case "P":
+			if a.V == WriterPanic {
+				if !st.Wrote {
+					_ = c.JSON(0, map[string]int{"h": hid})
+				}
+				panic(writerPanicText)
+			}
 			doPanic(a.V)
 		case "K":
 			func() { runActs(c, st, hid, a.Body) }()
@@ -374,13 +418,21 @@ func ahs(hs []int) []app.HandlerFunc {
 func SegPath(p []int) string {
 	var b strings.Builder
 	for _, s := range p {
-		b.WriteString("/s")
-		b.WriteString(strconv.Itoa(s))
+		b.WriteString(seg(s))
 	}
 	return b.String()
 }
 
-func seg(s int) string { return "/s" + strconv.Itoa(s) }
+// InvisibleSeg: segment tags from here on are rendered as the empty prefix ("") — a group created
+// with `Group("")` — while the model keeps the (unique) tag in its path.
+const InvisibleSeg = 1000000
+
+func seg(s int) string {
+	if s >= InvisibleSeg {
+		return ""
+	}
+	return "/s" + strconv.Itoa(s)
+}
 
 const VersionHeader = "X-Api-Version"
 
@@ -395,6 +447,9 @@ type BuildOpts struct {
 	Check    bool
 	Compiled bool                 // router.WithRouteCompilation(true): static routes are served from the compiled table
 	Obs      bool                 // app world: observability (logging to io.Discard) on — c.Response is the size-tracking observability writer
+	Tracing  bool                 // app world: app.WithObservability(app.WithTracing(tracing.WithNoop()))
+	Fmt      bool                 // app world: app.WithErrorFormatter(RFC 9457 with StatusResolver)
+	NoRoute  bool                 // a custom NoRoute handler that calls Abort() (served on a pooled context without a chain)
 	CtorMw   []int                // app world: middleware given through app.WithMiddleware(...) at construction
 	Defaults bool                 // app world: keep the default middleware (recovery)
 	Pre      []router.HandlerFunc // router world: installed with Use before the script runs (C10: recovery)
@@ -430,8 +485,16 @@ func Build(script []Op, bo BuildOpts) (w *World, err error) {
 		if len(bo.CtorMw) > 0 {
 			aopts = append(aopts, app.WithMiddleware(ahs(bo.CtorMw)...))
 		}
-		if bo.Obs {
+		switch {
+		case bo.Obs && bo.Tracing:
+			aopts = append(aopts, app.WithObservability(app.WithLogging(logging.WithOutput(io.Discard)), app.WithTracing(tracing.WithNoop())))
+		case bo.Obs:
 			aopts = append(aopts, app.WithObservability(app.WithLogging(logging.WithOutput(io.Discard))))
+		case bo.Tracing:
+			aopts = append(aopts, app.WithObservability(app.WithTracing(tracing.WithNoop())))
+		}
+		if bo.Fmt {
+			aopts = append(aopts, app.WithErrorFormatter(&rverrors.RFC9457{StatusResolver: StatusResolver}))
 		}
 		a, e := app.New(aopts...)
 		if e != nil {
@@ -443,6 +506,13 @@ func Build(script []Op, bo BuildOpts) (w *World, err error) {
 		w.Routers = []*router.Router{router.MustNew(ropts...)}
 		if len(bo.Pre) > 0 {
 			w.Routers[0].Use(bo.Pre...)
+		}
+	}
+	if bo.NoRoute {
+		if w.App != nil {
+			w.App.NoRoute(func(c *app.Context) { c.Abort(); c.Status(http.StatusNotFound) })
+		} else {
+			w.Routers[0].NoRoute(func(c *router.Context) { c.Abort(); c.Status(http.StatusNotFound) })
 		}
 	}
 	var rgroups []*routeGroup
@@ -650,6 +720,16 @@ func (w *World) ServeWire(srv *httptest.Server, t Target, st *ReqState) Result {
 	res.Status = resp.StatusCode
 	res.Body = ParseBody(b)
 	return res
+}
+
+// Miss sends a request that matches no route (answered by the NoRoute handler or the default 404).
+func (w *World) Miss() int {
+	rec := httptest.NewRecorder()
+	func() {
+		defer func() { _ = recover() }()
+		w.Routers[0].ServeHTTP(rec, httptest.NewRequest(http.MethodGet, "/no/such/route", nil))
+	}()
+	return rec.Code
 }
 
 // Probe asks for the composed chain: every handler passes through.
